@@ -23,7 +23,7 @@ func openUnseekableGunzip(filename string, baseFile *os.File) io.ReadCloser {
 	if magic, _ := buffered.Peek(2); len(magic) == 2 && magic[0] == 0x1f && magic[1] == 0x8b {
 		var zfile *gzip.Reader
 		if zfile, err = gzip.NewReader(buffered); err == nil {
-			return zfile
+			return gunzipFile{zfile, baseFile}
 		}
 	}
 	logger.Printf("Gunzip error for file %s: %v; Reading as plain file", filename, err)
@@ -34,4 +34,19 @@ func openUnseekableGunzip(filename string, baseFile *os.File) io.ReadCloser {
 type bufferedFile struct {
 	*bufio.Reader
 	io.Closer
+}
+
+// gunzipFile reads the decompressed data and closes the compressed file along with the decompressor
+// (closing a gzip.Reader does not close the file it reads from)
+type gunzipFile struct {
+	*gzip.Reader
+	base io.Closer
+}
+
+func (s gunzipFile) Close() error {
+	err := s.Reader.Close()
+	if cerr := s.base.Close(); err == nil {
+		err = cerr
+	}
+	return err
 }
